@@ -16,152 +16,34 @@ import ast
 
 from ..model import AnalysisError
 from ..terms import T, walk_terms
-from ..walk import (data_derives, ret_alts, call_parts, call_arg, is_call_to, const_val, NOVAL, strip_views, unwrap_gamma, norm_stmt)
+from ..walk import (data_derives, ret_alts, call_parts, call_arg, is_call_to, const_val, NOVAL, strip_views, unwrap_gamma, norm_stmt, shape_dim, loop_role, newaxis_insertions)
 from .. import loop as LP
+from .. import sel
 
 P = 'pb_bss.permutation_alignment::'
 MMU = 'pb_bss.distribution.mixture_model_utils::'
 
 
-# ------------------------------------------------------------------------------------------------ AST idiom: exhaustive arg-max
-def _is_neg_inf(node):
-    s = ast.unparse(node).replace(' ', '')
-    return s in ("float('-inf')", 'float("-inf")', '-np.inf', '-numpy.inf', '-math.inf', "-float('inf')", '-float("inf")')
-
-
-def _names(node):
-    return {n.id for n in ast.walk(node) if isinstance(n, ast.Name)}
-
-
-def exhaustive_argmax_loops(fn):
-    """[(for node, report dict)] for loops of the shape  for p in <permutations>: cand = f(p); if cand > best: best_arg = p; best = cand"""
-    out = []
-    body_parents = {}
-    for parent in ast.walk(fn.node):
-        for fld in ('body', 'orelse'):
-            seq = getattr(parent, fld, None)
-            if not isinstance(seq, list):
-                continue
-            for i, ch in enumerate(seq):
-                if isinstance(ch, ast.For):
-                    body_parents[ch] = (getattr(parent, fld), i)
-    for loop, (siblings, idx) in body_parents.items():
-        ifs = [s for s in loop.body if isinstance(s, ast.If) and isinstance(s.test, ast.Compare) and len(s.test.ops) == 1
-               and isinstance(s.test.ops[0], (ast.Gt, ast.GtE, ast.Lt, ast.LtE))]
-        if not ifs or not isinstance(loop.target, ast.Name):
-            continue
-        iff = ifs[-1]
-        op = iff.test.ops[0]
-        left, right = iff.test.left, iff.test.comparators[0]
-        assigned = {}
-        for s in iff.body:
-            if isinstance(s, ast.Assign) and len(s.targets) == 1 and isinstance(s.targets[0], ast.Name):
-                assigned[s.targets[0].id] = s.value
-        if len(assigned) < 1:
-            continue
-        rep = dict(loop=loop, test=iff, op=type(op).__name__)
-        # which side is the running best?  the one that is assigned in the body from the other side
-        best_name = cand_node = None
-        if isinstance(right, ast.Name) and right.id in assigned:
-            best_name, cand_node, rep['direction'] = right.id, left, 'max' if isinstance(op, (ast.Gt, ast.GtE)) else 'min'
-        elif isinstance(left, ast.Name) and left.id in assigned:
-            best_name, cand_node, rep['direction'] = left.id, right, 'max' if isinstance(op, (ast.Lt, ast.LtE)) else 'min'
-        elif isinstance(right, ast.Name):
-            # the running best is compared but never updated in the branch (broken paired update)
-            best_name, cand_node, rep['direction'] = right.id, left, 'max' if isinstance(op, (ast.Gt, ast.GtE)) else 'min'
-        else:
-            continue
-        rep['best'] = best_name
-        rep['strict'] = isinstance(op, (ast.Gt, ast.Lt))
-        rep['best_updated_with_candidate'] = best_name in assigned and ast.dump(assigned[best_name]) == ast.dump(cand_node)
-        arg_names = [k for k, v in assigned.items() if k != best_name and isinstance(v, ast.Name) and v.id == loop.target.id]
-        rep['arg_updated_with_loop_var'] = bool(arg_names)
-        rep['arg_name'] = arg_names[0] if arg_names else None
-        # candidate depends on the loop variable (directly or through locals assigned in the loop body before the test)
-        dep = {loop.target.id}
-        for s in loop.body:
-            if s is iff:
-                break
-            if isinstance(s, ast.Assign) and (_names(s.value) & dep):
-                for t in s.targets:
-                    dep |= _names(t)
-            if isinstance(s, ast.AugAssign) and (_names(s.value) & dep):
-                dep |= _names(s.target)
-            if isinstance(s, ast.Expr) and isinstance(s.value, ast.Call):
-                for k in s.value.keywords:
-                    if k.arg == 'out' and (_names(s.value) & dep):
-                        dep |= _names(k.value)
-        rep['candidate_from_loop_var'] = bool(_names(cand_node) & dep)
-        rep['early_exit'] = any(isinstance(n, (ast.Break, ast.Continue, ast.Return)) for s in loop.body for n in ast.walk(s))
-        # initialisation of best before the loop (same statement list, or the enclosing loop body)
-        init = None
-        for s in reversed(siblings[:idx]):
-            if isinstance(s, ast.Assign) and any(isinstance(t, ast.Name) and t.id == best_name for t in s.targets):
-                init = s.value
-                break
-        rep['init_neg_inf'] = init is not None and (_is_neg_inf(init) if rep['direction'] == 'max' else False)
-        rep['iter'] = loop.iter
-        out.append(rep)
-    return out
-
-
-def permutation_domain(fn, g, iter_node):
-    """for `itertools.permutations(range(X)[, r])` (possibly through np.asarray(list(...)) bound to a name) return X's ast node"""
-    node = iter_node
-    if isinstance(node, ast.Name):
-        # follow a simple local binding
-        for s in ast.walk(fn.node):
-            if isinstance(s, ast.Assign) and any(isinstance(t, ast.Name) and t.id == node.id for t in s.targets):
-                node = s.value
-                break
-    calls = [n for n in ast.walk(node) if isinstance(n, ast.Call) and ast.unparse(n.func).endswith('permutations')]
-    if not calls:
-        return None, None
-    c = calls[0]
-    # only materialising wrappers may surround the enumeration (no slicing / filtering / indexing of the enumerated set)
-    peel = node
-    while isinstance(peel, ast.Call) and peel is not c and ast.unparse(peel.func).split('.')[-1] in ('asarray', 'array', 'list', 'tuple') and len(peel.args) >= 1:
-        peel = peel.args[0]
-    if peel is not c:
-        return c, None
-    if not c.args or not (isinstance(c.args[0], ast.Call) and ast.unparse(c.args[0].func) == 'range' and len(c.args[0].args) == 1):
-        return c, None
-    return c, c.args[0].args[0]
-
-
-def shape_bound_names(fn):
-    """local names bound by unpacking `<x>.shape` : name -> (array expression text, position from the right or None)"""
-    out = {}
-    for s in ast.walk(fn.node):
-        if isinstance(s, ast.Assign) and isinstance(s.value, ast.Attribute) and s.value.attr == 'shape' and isinstance(s.targets[0], (ast.Tuple, ast.List)):
-            elts = s.targets[0].elts
-            for i, e in enumerate(elts):
-                e2 = e.value if isinstance(e, ast.Starred) else e
-                if isinstance(e2, ast.Name):
-                    out[e2.id] = (ast.unparse(s.value.value), i - len(elts), isinstance(e, ast.Starred))
-    return out
-
-
 def check_exhaustive(run, A, qual, label, class_dim_of, want_loops=1, rule='R-SEL'):
+    """class_dim_of: {(parameter name, axis position from the right)} whose length is the class count K"""
     fn = A.prog.func(qual)
     g = A.graphs.get(fn)
-    reps = [r for r in exhaustive_argmax_loops(fn) if permutation_domain(fn, g, r['iter'])[0] is not None]
+    reps = [r for r in sel.exhaustive_searches(g) if sel.enumeration_domain(r['iter'])[0] is not None]
     if len(reps) < want_loops:
         raise AnalysisError(f'{qual}: exhaustive arg-max loop over permutations not found')
-    shp = shape_bound_names(fn)
     for r in reps:
-        where = fn.loc(r['loop'])
-        call, dom = permutation_domain(fn, g, r['iter'])
+        where = fn.loc(r['loop'].node)
+        call, dom, complete = sel.enumeration_domain(r['iter'])
         full = False
         why = 'the enumerated set is not permutations(range(K)) of the full class count'
-        if dom is not None and isinstance(dom, ast.Name) and dom.id in shp and not shp[dom.id][2]:
-            arr, pos, _ = shp[dom.id]
-            full = (arr, pos) in class_dim_of
-            why = f'range({dom.id}) where {dom.id} is axis {pos} of {arr}.shape; expected one of {sorted(class_dim_of)}'
-        if call is not None and (len(call.args) > 1 or call.keywords):
-            full = False
-            why = 'permutations(..., r) enumerates partial selections'
-        run.check(full, rule, f'{label}: complete enumeration of the class permutations', where, ast.unparse(r['iter'])[:80], why, construct=f'{rule}::{qual}::enumeration')
+        if not complete:
+            why = 'the enumerated permutations are sliced / filtered or permutations(..., r) enumerates partial selections'
+        else:
+            d = shape_dim(dom)
+            if d is not None and d[0].op == 'param':
+                full = (d[0].args[0], d[1]) in class_dim_of
+                why = f'range(n) where n is axis {d[1]} of {d[0].args[0]}.shape; expected one of {sorted(class_dim_of)}'
+        run.check(full, rule, f'{label}: complete enumeration of the class permutations', where, norm_stmt(r['loop'].node.iter)[:80], why, construct=f'{rule}::{qual}::enumeration')
         run.check(r['direction'] == 'max', rule, f'{label}: keeps the LARGEST candidate', where, '', 'the comparison keeps the smaller candidate (arg-min)', construct=f'{rule}::{qual}::direction')
         run.check(r['strict'], rule, f'{label}: strict comparison (first maximiser wins, identity is never replaced by an equal permutation)', where, '',
                   'non-strict comparison: a later equal candidate replaces the identity permutation', construct=f'{rule}::{qual}::strict')
@@ -279,11 +161,13 @@ def check_apply_mapping(run, A):
     if ok:
         idx = rets[0].args[1]
         items = idx.args[0] if idx.op == 'tuple' else ()
-        ok = len(items) == 2 and strip_views(items[0]).op == 'param' and strip_views(items[0]).args[0] == 'mapping' and is_call_to(items[1], 'builtin.range')
+        cols = strip_views(items[1]) if len(items) == 2 else None
+        ok = len(items) == 2 and strip_views(items[0]).op == 'param' and strip_views(items[0]).args[0] == 'mapping' and is_call_to(cols, 'builtin.range', 'numpy.arange') \
+            and len(call_parts(cols)[1]) == 1 and not call_parts(cols)[2]
         if ok:
-            f = strip_views(call_arg(items[1], 0))
-            ok = f.op == 'unpack' and f.args[1] == 1 and data_derives(f.args[0], 'mapping') is False and f.args[0].op == 'attr' and strip_views(f.args[0].args[0]).op == 'param' \
-                and strip_views(f.args[0].args[0]).args[0] == 'mapping'
+            d = shape_dim(call_arg(cols, 0))
+            # all frequencies: the length of the second (= last) axis of the (K, F) mapping
+            ok = d is not None and d[0].op == 'param' and d[0].args[0] == 'mapping' and d[1] in (1, -1)
     run.check(ok, 'R-PERM', 'apply_mapping: pure gather mask[mapping, range(F)]', fn.loc(), '', 'apply_mapping is not the advanced-indexing gather of the mask rows by the mapping per frequency',
               construct=f'R-PERM::{q}::gather')
     n_eff = [e for e in g.events if e.kind in ('inplace', 'store')]
@@ -459,22 +343,26 @@ def check_optimal_and_inline_pa(run, A):
     fn = A.prog.func(q)
     g = A.graphs.get(fn)
     # the winner is what is stored: mapping[(slice(None), *f)] = best_permutation
-    reps = exhaustive_argmax_loops(fn)
-    arg = reps[0]['arg_name'] if reps else None
-    st = [s for s in ast.walk(fn.node) if isinstance(s, ast.Assign) and isinstance(s.targets[0], ast.Subscript) and isinstance(s.value, ast.Name) and s.value.id == arg]
+    reps = [r for r in sel.exhaustive_searches(g) if sel.enumeration_domain(r['iter'])[0] is not None]
+    arg_mu = reps[0]['arg_mu'] if reps else None
+    st = [e for e in g.events if e.kind == 'store' and arg_mu is not None and strip_views(e.term.args[2]) is arg_mu]
     run.check(bool(st), 'R-SEL', 'optimal assignment: the best permutation is what is stored', fn.loc(), '', 'the stored column is not the arg-max permutation', construct=f'R-SEL::{q}::store-best')
     # objective: sum_k score[k, perm[k]]
-    sums = [n for n in ast.walk(fn.node) if isinstance(n, ast.Call) and isinstance(n.func, ast.Name) and n.func.id == 'sum']
     oko = False
-    lv = reps[0]['loop'].target.id if reps else 'permutation'
-    call, dom = permutation_domain(fn, g, reps[0]['iter']) if reps else (None, None)
-    dn = dom.id if isinstance(dom, ast.Name) else 'K'
-    for s in sums:
-        for sub in ast.walk(s):
-            if isinstance(sub, ast.Subscript) and isinstance(sub.slice, ast.Tuple) and len(sub.slice.elts) >= 2:
-                a, b = sub.slice.elts[-2], sub.slice.elts[-1]
-                if isinstance(a, ast.Call) and ast.unparse(a).replace(' ', '') == f'range({dn})' and isinstance(b, ast.Name) and b.id == lv:
-                    oko = True
+    if reps:
+        L = reps[0]['loop']
+        _, dom, _ = sel.enumeration_domain(reps[0]['iter'])
+        cand = strip_views(reps[0]['cand'])
+        if is_call_to(cand, 'builtin.sum', 'numpy.sum') and len(call_parts(cand)[1]) == 1:
+            src = strip_views(call_parts(cand)[1][0])
+            if src.op == 'sub' and data_derives(src.args[0], 'score_matrix'):
+                idx = strip_views(src.args[1])
+                items = list(idx.args[0]) if idx.op == 'tuple' else []
+                if len(items) >= 2:
+                    rows, col = strip_views(items[-2]), strip_views(items[-1])
+                    rows_ok = is_call_to(rows, 'builtin.range', 'numpy.arange') and len(call_parts(rows)[1]) == 1 and dom is not None \
+                        and strip_views(call_parts(rows)[1][0]) is dom
+                    oko = rows_ok and col.op == 'elem' and col.extra is L
     run.check(oko, 'R-SEL', 'optimal assignment: objective sum_k score[k, perm[k]] (row k -> column perm[k])', fn.loc(), '', 'objective is not the sum over rows k of score[k, permutation[k]]',
               construct=f'R-SEL::{q}::objective')
     q2 = MMU + 'log_pdf_to_affiliation_for_integration_models_with_inline_pa'
